@@ -24,5 +24,6 @@ for m in idx:
         res.append({**m, 'status': status, 'reported': [k[:200] for k in keys]})
     finally:
         subprocess.run(['git', '-C', '/repo', 'reset', '-q', '--hard', 'HEAD'])
-json.dump(res, open(f'{D}/results.json', 'w'), indent=1)
+if not sel:   # a filtered run must not overwrite the record of the full suite
+    json.dump(res, open(f'{D}/results.json', 'w'), indent=1)
 print(sum(r['status'] == 'caught' for r in res), 'of', len(res), 'caught')
